@@ -158,7 +158,7 @@ fn codec_oracle(toks: &[&str]) -> String {
     // every kind of free-text value in turn (one line, LF and CR LF breaks, a control character, lengths around the field sizes):
     // written, read back, serialised, parsed again, read back
     let values: Vec<String> = vec!["VERIF 1".to_string(),"two\nlines".to_string(),"dos\r\nline\r\nbreaks".to_string(),"three\nshort\nlines\nhere".to_string(),
-        "ctl\u{1a}z".to_string(),"ends with a blank ".to_string(),"   ".to_string()," leading and trailing\t".to_string(),"X".repeat(31),"X".repeat(32),"X".repeat(33),"X".repeat(255),"X".repeat(256),"X".repeat(500)];
+        "ctl\u{1a}z".to_string(),"ends with a blank ".to_string(),"   ".to_string(),"ends with a carriage return\r".to_string()," leading and trailing\t".to_string(),"X".repeat(31),"X".repeat(32),"X".repeat(33),"X".repeat(255),"X".repeat(256),"X".repeat(500)];
     let mut swept = 0;
     for val in &values {
         let mut img3 = match a2kit::create_img_from_bytestream(&b1,Some(ext_of(label))) { Ok(i) => i, Err(e) => return format!("FAIL serialised image does not load again: {}",e) };
@@ -214,6 +214,13 @@ fn meta_sweep(toks: &[&str]) -> String {
     }
     let mut leaves = Vec::new();
     walk(&meta0,&mut Vec::new(),&mut leaves);
+    // INFO fields of WOZ2 that an image without flux data does not show: what the interface lets through must be shown afterwards
+    if label.starts_with("woz2") {
+        for k in ["flux_block","largest_flux_track"] {
+            let leaf = vec!["woz2".to_string(),"info".to_string(),k.to_string()];
+            if !leaves.iter().any(|(p,_)| *p==leaf) { leaves.push((leaf,"0000".to_string())); }
+        }
+    }
     let mut bad: Vec<String> = Vec::new();
     let mut accepted = 0; let mut tried = 0;
     for (path,cur) in &leaves {
@@ -234,6 +241,15 @@ fn meta_sweep(toks: &[&str]) -> String {
             if img.put_metadata(path,&json::JsonValue::String(v.clone())).is_err() { continue; }
             accepted += 1;
             let show = |v: &String| if v.len()>24 { format!("{}... ({} chars)",&v[..12],v.len()) } else { v.clone() };
+            // metadata written through the interface is what is read back: a field that is not shown afterwards must not have changed
+            // the image either (read-only fields are skipped with a warning, which is fine)
+            if let Ok(m) = json::parse(&img.get_metadata(None)) {
+                let mut node = &m; for k in path { node = &node[k.as_str()]; }
+                if node.is_null() {
+                    if img.to_bytes()!=b0 && bad.len()<4 { bad.push(format!("{} = {:?}: accepted and written into the image, but the metadata of the image does not show the field",path.join("/"),show(&v))); }
+                    continue;
+                }
+            }
             let r = catch_unwind(AssertUnwindSafe(|| -> Result<(),String> {
                 let b = img.to_bytes();
                 let img2 = a2kit::create_img_from_bytestream(&b,Some(ext_of(label))).map_err(|e| format!("does not load again ({})",e))?;
